@@ -62,10 +62,16 @@ type FileHashes []FileHash
 // Files listed in a .dsc or .changes live next to it, so a listed name is a
 // single path element. Copy, Move and Remove refuse anything else rather than
 // reach outside the control file's directory.
-func checkListedFilename(name string) error {
+//
+// Nor may the control file list itself: it would be copied, moved or removed
+// as one of its own files - that is, before the files listed after it.
+func checkListedFilename(name, controlFile string) error {
 	if name == "" || name == "." || name == ".." ||
 		strings.ContainsRune(name, '/') || strings.ContainsRune(name, filepath.Separator) {
 		return fmt.Errorf("Listed file name '%s' is not a plain file name", name)
+	}
+	if name == filepath.Base(controlFile) {
+		return fmt.Errorf("Listed file name '%s' is the control file itself", name)
 	}
 	return nil
 }
